@@ -354,7 +354,8 @@ func main() {
 					// transfer took d: the discipline sleeps Interval - d
 					d := []int64{0, int64(interval) / 2, int64(interval), 2 * int64(interval)}[r.Intn(4)]
 					if long {
-						d = []int64{int64(interval), int64(interval) + 1, 2 * int64(interval), 3*int64(interval) + 7}[r.Intn(4)]
+						// (and a transfer that took most of a long interval: a short pause remains)
+						d = []int64{int64(interval), int64(interval) + 1, 2 * int64(interval), 3*int64(interval) + 7, int64(interval) - int64(30*time.Millisecond)}[r.Intn(5)]
 					}
 					do(fmt.Sprintf("delay %d", d))
 				}
